@@ -364,7 +364,10 @@ def run_history(case, prefix):
             frame_checks(tag)
             # what may a conformant-looking junk frame legitimately have changed?
             ccs = fr[0] >> 5
-            if len(fr) >= 4 and ccs in (1, 2, 5, 6) and not (ccs in (5, 6) and fr[0] & 3):
+            # initiate-type frames carry the multiplexer the server will use from now on
+            # (block upload: 2-bit sub-command, block download: bit 0 only)
+            if len(fr) >= 4 and ccs in (1, 2, 5, 6) and not (ccs == 5 and fr[0] & 3) \
+                    and not (ccs == 6 and fr[0] & 1):
                 m.last_mux = struct.unpack_from("<HB", fr, 1)
                 if ccs != 6:
                     m.dl_open = False
@@ -568,6 +571,8 @@ def od_spec(draw, max_len=60, access=None, min_objs=1, max_objs=8):
 
 def data_for(dt, length):
     """Bytes for a download of a given length (content irrelevant to the type)."""
+    if length > 1500:
+        return st.integers(0, 255).map(lambda salt: bytes(((i * 13 + salt) % 255) + 1 for i in range(length)))
     return st.binary(min_size=length, max_size=length)
 
 
